@@ -266,6 +266,9 @@ class Sym(Interp):
                 any(isinstance(x, tuple) and x and x[0] in ("tuple", "list") for x in (b[2], b[3])):
             # (x if c else (y, 0))[k]: the index goes into both alternatives - a display is taken apart, an opaque value indexed
             return self.mkphi(b[1], T(self.h_subscript(b[2], idx, n, env, ctx)), T(self.h_subscript(b[3], idx, n, env, ctx)))
+        if b[0] == "elem" and isinstance(b[1], tuple) and len(b[1]) == 4 and b[1][0] == "ext" and b[1][1] == "zip" and not b[1][3] and is_const(T(idx)) and \
+                isinstance(T(idx)[1], int) and not isinstance(T(idx)[1], bool) and 0 <= T(idx)[1] < len(b[1][2]):
+            return ("elem", b[1][2][T(idx)[1]])          # component k of the current tuple of zip(a, b, ...) is the current element of its k-th argument
         if b[0] == "cmp" and len(b) == 4 and b[1] in ("==", "!=", "<", "<=", ">", ">=") and (is_const(b[3]) or is_const(b[2])) and \
                 isinstance((b[3] if is_const(b[3]) else b[2])[1], (int, float)):
             # (A != 0)[:, i] is A[:, i] != 0: indexing an elementwise comparison with a scalar = comparing the indexed array
@@ -332,7 +335,7 @@ class Sym(Interp):
             return list(t[1])
         if t[0] == "phi":
             return [T(self.h_subscript(t, ("const", i), n, None, ctx)) for i in range(k)]
-        return [("sub", t, ("const", i)) for i in range(k)]
+        return [T(self.h_subscript(t, ("const", i), n, None, ctx)) for i in range(k)]
 
     def _comp_as_loops(self, n, env, ctx):
         """[elt for a in A for b in B if c] executed as the loops it abbreviates (tmp = []; for a in A: for b in B: if c: tmp.append(elt)):
